@@ -69,6 +69,11 @@ func (a *storedSetAnalysis) origin(fn *types.Func, e ast.Expr, depth int, seen m
 		return ""
 	case *ast.SelectorExpr:
 		if s := info.Selections[x]; s != nil && s.Kind() == types.FieldVal && a.plainFields && isCardinalityType(info.TypeOf(x)) {
+			// a field of a struct value that this function built itself (a group of locals held in one local struct) is
+			// as local as the locals were: its origin is what the function put into the field
+			if d, local := a.localStructFieldOrigin(fn, x, depth+1, seen); local {
+				return d
+			}
 			return "field " + exprString(a.r.Fset, x)
 		}
 		return ""
@@ -250,3 +255,125 @@ func checkStoredSetsReadOnly(r *Run, rule string, p *packages.Package, cg *CallG
 }
 
 var _ = token.NoPos
+
+// localStructFieldOrigin: for `v.f` where v is a local variable of fn whose every definition is a composite literal of a
+// struct type (by value or `&T{…}`) and that is not a parameter: the union of the origins of what fn stores in f (the
+// literal's value for f and later assignments `v.f = …`). local=false when v is not such a variable.
+func (a *storedSetAnalysis) localStructFieldOrigin(fn *types.Func, sel *ast.SelectorExpr, depth int, seen map[types.Object]bool) (string, bool) {
+	info := a.p.TypesInfo
+	id, ok := ast.Unparen(sel.X).(*ast.Ident)
+	if !ok {
+		return "", false
+	}
+	v, ok := info.Uses[id].(*types.Var)
+	if !ok || v.IsField() {
+		return "", false
+	}
+	fd := a.cg.Decl[fn]
+	if fd == nil || fd.Body == nil {
+		return "", false
+	}
+	// parameters and receivers come from the caller
+	isParam := false
+	check := func(fl *ast.FieldList) {
+		if fl == nil {
+			return
+		}
+		for _, f := range fl.List {
+			for _, nm := range f.Names {
+				if info.Defs[nm] == types.Object(v) {
+					isParam = true
+				}
+			}
+		}
+	}
+	check(fd.Recv)
+	check(fd.Type.Params)
+	if isParam {
+		return "", false
+	}
+	fieldObj := info.Selections[sel].Obj()
+	var values []ast.Expr
+	defs, allLits := 0, true
+	literalOf := func(e ast.Expr) *ast.CompositeLit {
+		e = ast.Unparen(e)
+		if u, ok := e.(*ast.UnaryExpr); ok {
+			e = ast.Unparen(u.X)
+		}
+		cl, _ := e.(*ast.CompositeLit)
+		return cl
+	}
+	consider := func(rhs ast.Expr) {
+		defs++
+		cl := literalOf(rhs)
+		if cl == nil {
+			allLits = false
+			return
+		}
+		for _, el := range cl.Elts {
+			if kv, ok := el.(*ast.KeyValueExpr); ok {
+				if k, ok := kv.Key.(*ast.Ident); ok && info.Uses[k] == fieldObj {
+					values = append(values, kv.Value)
+				}
+			} else {
+				allLits = false // positional literal: not modelled
+			}
+		}
+	}
+	ast.Inspect(fd.Body, func(n ast.Node) bool {
+		switch x := n.(type) {
+		case *ast.AssignStmt:
+			if len(x.Lhs) == len(x.Rhs) {
+				for i, l := range x.Lhs {
+					if lid, ok := ast.Unparen(l).(*ast.Ident); ok && (info.Defs[lid] == types.Object(v) || info.Uses[lid] == types.Object(v)) {
+						consider(x.Rhs[i])
+					}
+					if ls, ok := ast.Unparen(l).(*ast.SelectorExpr); ok {
+						if s := info.Selections[ls]; s != nil && s.Obj() == fieldObj {
+							if bid, ok := ast.Unparen(ls.X).(*ast.Ident); ok && info.Uses[bid] == types.Object(v) {
+								values = append(values, x.Rhs[i])
+							}
+						}
+					}
+				}
+			} else {
+				for _, l := range x.Lhs {
+					if lid, ok := ast.Unparen(l).(*ast.Ident); ok && (info.Defs[lid] == types.Object(v) || info.Uses[lid] == types.Object(v)) {
+						defs++
+						allLits = false
+					}
+				}
+			}
+		case *ast.ValueSpec:
+			for i, nm := range x.Names {
+				if info.Defs[nm] == types.Object(v) {
+					if i < len(x.Values) {
+						consider(x.Values[i])
+					} else if _, isStruct := v.Type().Underlying().(*types.Struct); isStruct {
+						defs++ // zero value
+					} else {
+						defs++
+						allLits = false
+					}
+				}
+			}
+		case *ast.RangeStmt:
+			for _, e := range []ast.Expr{x.Key, x.Value} {
+				if lid, ok := e.(*ast.Ident); ok && info.Defs[lid] == types.Object(v) {
+					defs++
+					allLits = false
+				}
+			}
+		}
+		return true
+	})
+	if defs == 0 || !allLits {
+		return "", false
+	}
+	for _, val := range values {
+		if d := a.origin(fn, val, depth+1, seen); d != "" {
+			return d, true
+		}
+	}
+	return "", true
+}
